@@ -42,7 +42,7 @@ class _Rename:
         return getattr(self._c, n)
 
     def ob(self, rule, *a, **k):
-        if self._c.prop == "C02" and len(a) > 1 and a[1] == "backjump-cannot-go-below-starting-level":
+        if self._c.prop not in ("C01", "C14") and len(a) > 1 and a[1] == "backjump-cannot-go-below-starting-level":
             return          # concerns the validity of results with soft requirements (C14 / C01), not the verdict
         self._c.ob(rule.replace(self._a, self._b), *a, **k)
 
